@@ -556,7 +556,11 @@ impl<'a> JoinOutput<'a> {
                     })
                     .collect();
 
-                if !results.is_empty() {
+                //
+                // Only `async` steps wrap their unpacked results into `Ok` again, so only there
+                // results of already finished branches have to be transposed.
+                //
+                if !results.is_empty() && is_async {
                     let transposer = self.generate_results_transposer(&results, &result_vars);
 
                     quote! {
